@@ -552,61 +552,61 @@ Proof.
   exists (l1 ++ l2). now rewrite (r_run_app _ _ _ _ H1).
 Qed.
 
-Lemma p_run_app a : forall s s1 b, p_run s a = Some s1 -> p_run s (a ++ b) = p_run s1 b.
+Lemma sdp_run_app a : forall s s1 b, sdp_run s a = Some s1 -> sdp_run s (a ++ b) = sdp_run s1 b.
 Proof.
-  induction a as [|l a IH]; intros s s1 b H; cbn [p_run app] in *; [inversion H; reflexivity|].
-  destruct (p_step s l); [|discriminate]. now apply IH.
+  induction a as [|l a IH]; intros s s1 b H; cbn [sdp_run app] in *; [inversion H; reflexivity|].
+  destruct (sdp_step s l); [|discriminate]. now apply IH.
 Qed.
 
-Lemma p_quiesce_refines h m fuel : forall s, exists ls, p_run s ls = Some (p_quiesce h m fuel s).
+Lemma sdp_quiesce_refines h m fuel : forall s, exists ls, sdp_run s ls = Some (sdp_quiesce h m fuel s).
 Proof.
-  induction fuel as [|f IH]; intros s; cbn [p_quiesce]; [exists []; reflexivity|].
-  destruct (p_first_internal h m s) as [l|]; [|exists []; reflexivity].
-  destruct (p_step s l) as [s'|] eqn:E; [|exists []; reflexivity].
-  destruct (IH s') as [ls H]. exists (l :: ls). cbn [p_run]. now rewrite E.
+  induction fuel as [|f IH]; intros s; cbn [sdp_quiesce]; [exists []; reflexivity|].
+  destruct (sdp_first_internal h m s) as [l|]; [|exists []; reflexivity].
+  destruct (sdp_step s l) as [s'|] eqn:E; [|exists []; reflexivity].
+  destruct (IH s') as [ls H]. exists (l :: ls). cbn [sdp_run]. now rewrite E.
 Qed.
 
-Lemma p_big_refines h m s e s' : p_big h m s e = Some s' -> exists ls, p_run s ls = Some s'.
+Lemma sdp_big_refines h m s e s' : sdp_big h m s e = Some s' -> exists ls, sdp_run s ls = Some s'.
 Proof.
-  unfold p_big. destruct (p_ext_labels s e) as [l0|]; [|discriminate].
-  destruct (p_run s l0) as [s1|] eqn:E; [|discriminate].
-  intros H. inversion H; subst. destruct (p_quiesce_refines h m big_fuel s1) as [ls Hl].
-  exists (l0 ++ ls). now rewrite (p_run_app _ _ _ _ E).
+  unfold sdp_big. destruct (sdp_ext_labels s e) as [l0|]; [|discriminate].
+  destruct (sdp_run s l0) as [s1|] eqn:E; [|discriminate].
+  intros H. inversion H; subst. destruct (sdp_quiesce_refines h m big_fuel s1) as [ls Hl].
+  exists (l0 ++ ls). now rewrite (sdp_run_app _ _ _ _ E).
 Qed.
 
-Fixpoint p_bigs (h : bool) (m : nat) (s : pstate) (es : list xev) : option pstate :=
+Fixpoint sdp_bigs (h : bool) (m : nat) (s : sd_pstate) (es : list xev) : option sd_pstate :=
   match es with
   | [] => Some s
-  | e :: tl => match p_big h m s e with Some s' => p_bigs h m s' tl | None => None end
+  | e :: tl => match sdp_big h m s e with Some s' => sdp_bigs h m s' tl | None => None end
   end.
 
-Lemma p_bigs_refines h m es : forall s s', p_bigs h m s es = Some s' -> exists ls, p_run s ls = Some s'.
+Lemma sdp_bigs_refines h m es : forall s s', sdp_bigs h m s es = Some s' -> exists ls, sdp_run s ls = Some s'.
 Proof.
   induction es as [|e es IH]; intros s s' H; cbn in H; [inversion H; exists []; reflexivity|].
-  destruct (p_big h m s e) as [s1|] eqn:E; [|discriminate].
-  destruct (p_big_refines _ _ _ _ _ E) as [l1 H1]. destruct (IH _ _ H) as [l2 H2].
-  exists (l1 ++ l2). now rewrite (p_run_app _ _ _ _ H1).
+  destruct (sdp_big h m s e) as [s1|] eqn:E; [|discriminate].
+  destruct (sdp_big_refines _ _ _ _ _ E) as [l1 H1]. destruct (IH _ _ H) as [l2 H2].
+  exists (l1 ++ l2). now rewrite (sdp_run_app _ _ _ _ H1).
 Qed.
 
 (* =====================================================================================================
    Part 2 — PipelineTransport on connpool.Pool
    ===================================================================================================== *)
-Lemma p_close_total s : exists s', p_step s PClose = Some s' /\ ps_closed s' = true.
+Lemma sdp_close_total s : exists s', sdp_step s PClose = Some s' /\ ps_closed s' = true.
 Proof. cbn. destruct (ps_closed s) eqn:E; eexists; split; eauto. Qed.
 
-Lemma p_close_idempotent s s' : p_step s PClose = Some s' -> p_step s' PClose = Some s'.
+Lemma sdp_close_idempotent s s' : sdp_step s PClose = Some s' -> sdp_step s' PClose = Some s'.
 Proof. cbn. destruct (ps_closed s) eqn:E; intros H; inversion H; subst; cbn; [now rewrite E|reflexivity]. Qed.
 
-Definition p_result_of (s : pstate) (t : nat) := p_result s t.
+Definition sdp_result_of (s : sd_pstate) (t : nat) := sdp_result s t.
 
-Lemma p_new_exchange_fails s :
+Lemma sdp_new_exchange_fails s :
   ps_closed s = true ->
-  exists s', p_run s [PSpawn; PGet (length (ps_tasks s)) GNew] = Some s' /\
-             p_result s' (length (ps_tasks s)) = Some false.
+  exists s', sdp_run s [PSpawn; SdGet (length (ps_tasks s)) GNew] = Some s' /\
+             sdp_result s' (length (ps_tasks s)) = Some false.
 Proof.
-  intros Cl. cbn [p_run p_step]. cbn [padd_task ps_tasks ps_closed].
+  intros Cl. cbn [sdp_run sdp_step]. cbn [padd_task ps_tasks ps_closed].
   rewrite nth_error_app2 by lia. rewrite Nat.sub_diag. cbn [nth_error pt_stage]. rewrite Cl.
-  eexists. split; [reflexivity|]. unfold p_result; cbn.
+  eexists. split; [reflexivity|]. unfold sdp_result; cbn.
   rewrite nth_error_upd_eq by (rewrite app_length; cbn; lia). reflexivity.
 Qed.
 
@@ -615,23 +615,23 @@ Qed.
 Definition dinv (closed : bool) (dd : pdial) : Prop :=
   pd_result dd = None -> pd_listed dd = true /\ closed = false.
 
-Definition DInv (s : pstate) : Prop := Forall (dinv (ps_closed s)) (ps_dials s).
+Definition DInv (s : sd_pstate) : Prop := Forall (dinv (ps_closed s)) (ps_dials s).
 
-Lemma p_trim_dials : forall trim s s', p_trim s trim = Some s' -> ps_dials s' = ps_dials s /\ ps_closed s' = ps_closed s.
+Lemma sdp_trim_dials : forall trim s s', sdp_trim s trim = Some s' -> ps_dials s' = ps_dials s /\ ps_closed s' = ps_closed s.
 Proof.
   induction trim as [|c tl IH]; intros s s' H; cbn in H; [inversion H; auto|].
   destr H. apply IH in H. cbn in H. exact H.
 Qed.
 
-Lemma p_io_fail_dials s t k c f : ps_dials (p_io_fail s t k c f) = ps_dials s /\ ps_closed (p_io_fail s t k c f) = ps_closed s.
-Proof. unfold p_io_fail. destruct (pt_res k); [|destruct (_ && _)]; auto. Qed.
+Lemma sdp_io_fail_dials s t k c f : ps_dials (sdp_io_fail s t k c f) = ps_dials s /\ ps_closed (sdp_io_fail s t k c f) = ps_closed s.
+Proof. unfold sdp_io_fail. destruct (pt_res k); [|destruct (_ && _)]; auto. Qed.
 
-Lemma p_step_dinv s l s' : DInv s -> p_step s l = Some s' -> DInv s'.
+Lemma sdp_step_dinv s l s' : DInv s -> sdp_step s l = Some s' -> DInv s'.
 Proof.
   unfold DInv. intros HD Hs.
   destruct l; cbn in Hs.
   - inversion Hs; subst; exact HD.
-  - (* PGet *)
+  - (* SdGet *)
     destruct (nth_error (ps_tasks s) t) as [k|]; [|discriminate].
     destruct (pt_stage k); try discriminate.
     destruct (ps_closed s) eqn:Cl; [inversion Hs; subst; cbn; now rewrite Cl|].
@@ -658,15 +658,15 @@ Proof.
   - destr Hs; inversion Hs; subst; exact HD.
   - destr Hs; inversion Hs; subst; exact HD.
   - destr Hs; inversion Hs; subst.
-    match goal with |- context [p_io_fail ?s0 ?t0 ?k0 ?c0 ?f0] => destruct (p_io_fail_dials s0 t0 k0 c0 f0) as [-> ->] end. exact HD.
+    match goal with |- context [sdp_io_fail ?s0 ?t0 ?k0 ?c0 ?f0] => destruct (sdp_io_fail_dials s0 t0 k0 c0 f0) as [-> ->] end. exact HD.
   - destr Hs; inversion Hs; subst;
-    match goal with |- context [p_io_fail ?s0 ?t0 ?k0 ?c0 ?f0] => destruct (p_io_fail_dials s0 t0 k0 c0 f0) as [A B] end;
+    match goal with |- context [sdp_io_fail ?s0 ?t0 ?k0 ?c0 ?f0] => destruct (sdp_io_fail_dials s0 t0 k0 c0 f0) as [A B] end;
     destruct kill; cbn; rewrite ?A, ?B; exact HD.
   - destr Hs; inversion Hs; subst; exact HD.
   - destr Hs; inversion Hs; subst; exact HD.
   - (* PRel2 *)
     destr Hs; inversion Hs; subst; cbn; try exact HD.
-    all: match goal with H : p_trim _ _ = Some _ |- _ => apply p_trim_dials in H; cbn in H; destruct H as [-> ->]; exact HD end.
+    all: match goal with H : sdp_trim _ _ = Some _ |- _ => apply sdp_trim_dials in H; cbn in H; destruct H as [-> ->]; exact HD end.
   - destr Hs; inversion Hs; subst; exact HD.
   - destr Hs; inversion Hs; subst; exact HD.
   - destr Hs; inversion Hs; subst; exact HD.
@@ -682,17 +682,17 @@ Proof.
     intros R. destruct (Hd R) as [H _]. congruence.
 Qed.
 
-Lemma p_run_dinv ls : forall s s', DInv s -> p_run s ls = Some s' -> DInv s'.
+Lemma sdp_run_dinv ls : forall s s', DInv s -> sdp_run s ls = Some s' -> DInv s'.
 Proof.
-  induction ls as [|l ls IH]; intros s s' HI H; cbn [p_run] in H; [inversion H; subst; exact HI|].
-  destruct (p_step s l) as [s1|] eqn:E; [|discriminate]. eapply IH; [|exact H]. eapply p_step_dinv; eauto.
+  induction ls as [|l ls IH]; intros s s' HI H; cbn [sdp_run] in H; [inversion H; subst; exact HI|].
+  destruct (sdp_step s l) as [s1|] eqn:E; [|discriminate]. eapply IH; [|exact H]. eapply sdp_step_dinv; eauto.
 Qed.
 
-Lemma p_dials_resolved ls s :
-  p_run p_init ls = Some s -> ps_closed s = true ->
+Lemma sdp_dials_resolved ls s :
+  sdp_run sdp_init ls = Some s -> ps_closed s = true ->
   forall d dd, nth_error (ps_dials s) d = Some dd -> pd_result dd <> None.
 Proof.
-  intros H Cl d dd E R. assert (DInv s) as HD by (eapply p_run_dinv; [|exact H]; constructor).
+  intros H Cl d dd E R. assert (DInv s) as HD by (eapply sdp_run_dinv; [|exact H]; constructor).
   pose proof (Forall_nth_error _ _ _ _ HD E) as Hd. destruct (Hd R) as [_ Hc]. congruence.
 Qed.
 
@@ -721,7 +721,7 @@ Definition rel2inv (conns : list pconn) (k : ptask) : Prop :=
   | _ => True
   end.
 
-Definition KInv (s : pstate) : Prop :=
+Definition KInv (s : sd_pstate) : Prop :=
   (forall c k, nth_error (ps_conns s) c = Some k -> kc (ps_closed s) (ps_tasks s) c k) /\
   Forall (rel2inv (ps_conns s)) (ps_tasks s).
 
@@ -851,29 +851,29 @@ Proof.
     eapply closed_mono_upd; eauto.
 Qed.
 
-Lemma p_trim_KInv : forall trim s s', KInv s -> p_trim s trim = Some s' -> KInv s'.
+Lemma sdp_trim_KInv : forall trim s s', KInv s -> sdp_trim s trim = Some s' -> KInv s'.
 Proof.
   induction trim as [|c tl IH]; intros s s' HI H; cbn in H; [inversion H; subst; exact HI|].
   destruct (nth_error (ps_conns s) c) as [k0|] eqn:E; [|discriminate].
   destruct (pc_where k0); try discriminate. eapply IH; [|exact H]. now apply KInv_trim_one.
 Qed.
 
-Lemma p_trim_tasks_prefix : forall trim s s' t k, p_trim s trim = Some s' ->
+Lemma sdp_trim_tasks_prefix : forall trim s s' t k, sdp_trim s trim = Some s' ->
   nth_error (ps_tasks s) t = Some k -> nth_error (ps_tasks s') t = Some k.
 Proof.
   induction trim as [|c tl IH]; intros s s' t k H E; cbn in H; [inversion H; subst; exact E|].
   destr H. eapply IH; [exact H|]. cbn. rewrite nth_error_app1; [exact E|eapply nth_error_some_lt; eauto].
 Qed.
 
-Lemma p_io_fail_KInv s t k c f :
-  KInv s -> nth_error (ps_tasks s) t = Some k -> pt_stage k = PsHas c f -> KInv (p_io_fail s t k c f).
+Lemma sdp_io_fail_KInv s t k c f :
+  KInv s -> nth_error (ps_tasks s) t = Some k -> pt_stage k = PsHas c f -> KInv (sdp_io_fail s t k c f).
 Proof.
-  intros HI E S. unfold p_io_fail.
+  intros HI E S. unfold sdp_io_fail.
   assert (Hn : not_closer (pt_stage k)) by (rewrite S; split; intros; discriminate).
   destruct (pt_res k); [|destruct (_ && _)]; eapply KInv_set_task; eauto; exact I.
 Qed.
 
-Lemma pinit_KInv : KInv p_init.
+Lemma pinit_KInv : KInv sdp_init.
 Proof. split; [intros c k E; destruct c; discriminate|constructor]. Qed.
 
 Lemma kc_upd_task_other cl a t k0 x c k :
@@ -901,11 +901,11 @@ Proof.
   unfold pc_pool_close. destruct (pc_where k); auto; rewrite C; exact C.
 Qed.
 
-Theorem p_step_KInv s l s' : KInv s -> p_step s l = Some s' -> KInv s'.
+Theorem sdp_step_KInv s l s' : KInv s -> sdp_step s l = Some s' -> KInv s'.
 Proof.
   intros HI Hs. pose proof HI as [HK HR]. destruct l; cbn in Hs.
   - (* PSpawn *) inversion Hs; subst. apply KInv_add_task; auto. exact I.
-  - (* PGet *)
+  - (* SdGet *)
     destruct (nth_error (ps_tasks s) t) as [k|] eqn:Ek; [|discriminate].
     destruct (pt_stage k) eqn:Sk; try discriminate.
     assert (Hn : not_closer (pt_stage k)) by (rewrite Sk; split; intros; discriminate).
@@ -952,11 +952,11 @@ Proof.
   - (* PIoClosed *)
     destruct (nth_error (ps_tasks s) t) as [k|] eqn:Ek; [|discriminate].
     destruct (pt_stage k) eqn:Sk; try discriminate.
-    destr Hs; inversion Hs; subst. eapply p_io_fail_KInv; eauto.
+    destr Hs; inversion Hs; subst. eapply sdp_io_fail_KInv; eauto.
   - (* PIoPeerErr *)
     destruct (nth_error (ps_tasks s) t) as [k|] eqn:Ek; [|discriminate].
     destruct (pt_stage k) eqn:Sk; try discriminate.
-    destr Hs; inversion Hs; subst. destruct kill; [apply KInv_add_task; [|exact I]|]; eapply p_io_fail_KInv; eauto.
+    destr Hs; inversion Hs; subst. destruct kill; [apply KInv_add_task; [|exact I]|]; eapply sdp_io_fail_KInv; eauto.
   - (* PReadErr *) destr Hs. inversion Hs; subst. apply KInv_add_task; auto. exact I.
   - (* PRel1 *)
     destruct (nth_error (ps_tasks s) t) as [k|] eqn:Ek; [|discriminate].
@@ -981,13 +981,13 @@ Proof.
         destruct Rk as (k1 & E1 & C1). inversion E1; subst k1.
         destruct (HK _ _ Ec Ho) as [(A & _)|[K1|[A _]]]; try congruence. right; left. exact K1.
       * destruct n as [|[|m]].
-        -- destruct (p_trim (pset_conn s c (pc_at k0 PIdle)) trim) as [s1|] eqn:Tr; [|discriminate].
-           inversion Hs; subst. eapply KInv_set_task; [|eapply p_trim_tasks_prefix; [exact Tr|exact Ek]|exact Hn|apply Hnext].
-           eapply p_trim_KInv; [|exact Tr]. eapply KInv_set_conn; eauto.
+        -- destruct (sdp_trim (pset_conn s c (pc_at k0 PIdle)) trim) as [s1|] eqn:Tr; [|discriminate].
+           inversion Hs; subst. eapply KInv_set_task; [|eapply sdp_trim_tasks_prefix; [exact Tr|exact Ek]|exact Hn|apply Hnext].
+           eapply sdp_trim_KInv; [|exact Tr]. eapply KInv_set_conn; eauto.
            apply kc_at_inpool; [discriminate|apply HK; exact Ec|rewrite W; discriminate].
-        -- destruct (p_trim (pset_conn s c (pc_at k0 PIdle)) trim) as [s1|] eqn:Tr; [|discriminate].
-           inversion Hs; subst. eapply KInv_set_task; [|eapply p_trim_tasks_prefix; [exact Tr|exact Ek]|exact Hn|apply Hnext].
-           eapply p_trim_KInv; [|exact Tr]. eapply KInv_set_conn; eauto.
+        -- destruct (sdp_trim (pset_conn s c (pc_at k0 PIdle)) trim) as [s1|] eqn:Tr; [|discriminate].
+           inversion Hs; subst. eapply KInv_set_task; [|eapply sdp_trim_tasks_prefix; [exact Tr|exact Ek]|exact Hn|apply Hnext].
+           eapply sdp_trim_KInv; [|exact Tr]. eapply KInv_set_conn; eauto.
            apply kc_at_inpool; [discriminate|apply HK; exact Ec|rewrite W; discriminate].
         -- destruct trim; [|discriminate]. inversion Hs; subst.
            eapply KInv_set_task; [|exact Ek|exact Hn|apply Hnext].
@@ -1053,34 +1053,34 @@ Proof.
     + eapply Forall_impl; [|exact HR]. intros k1. apply rel2inv_mono. apply closed_mono_pool_close.
 Qed.
 
-Theorem p_run_KInv ls : forall s s', KInv s -> p_run s ls = Some s' -> KInv s'.
+Theorem sdp_run_KInv ls : forall s s', KInv s -> sdp_run s ls = Some s' -> KInv s'.
 Proof.
-  induction ls as [|l ls IH]; intros s s' HI H; cbn [p_run] in H; [inversion H; subst; exact HI|].
-  destruct (p_step s l) as [s1|] eqn:E; [|discriminate]. eapply IH; [|exact H]. eapply p_step_KInv; eauto.
+  induction ls as [|l ls IH]; intros s s' HI H; cbn [sdp_run] in H; [inversion H; subst; exact HI|].
+  destruct (sdp_step s l) as [s1|] eqn:E; [|discriminate]. eapply IH; [|exact H]. eapply sdp_step_KInv; eauto.
 Qed.
 
-Lemma p_no_leak ls s :
-  p_run p_init ls = Some s -> ps_closed s = true ->
+Lemma sdp_no_leak ls s :
+  sdp_run sdp_init ls = Some s -> ps_closed s = true ->
   forall c k, nth_error (ps_conns s) c = Some k -> pc_open k = true ->
     (pc_closed k = true /\ has_stage (ps_tasks s) (PsCloseB c)) \/
     (pc_closed k = false /\ has_stage (ps_tasks s) (PsCloseA c)).
 Proof.
-  intros H Cl c k E Ho. assert (KInv s) as [HK _] by (eapply p_run_KInv; [apply pinit_KInv|exact H]).
+  intros H Cl c k E Ho. assert (KInv s) as [HK _] by (eapply sdp_run_KInv; [apply pinit_KInv|exact H]).
   destruct (HK _ _ E Ho) as [(_ & _ & C)|[K1|K1]]; [congruence|left; exact K1|right; exact K1].
 Qed.
 
 (* the pending closers are enabled and close the connection: PsCloseB in one step, PsCloseA in two *)
-Lemma p_closer_progress s t k c k0 :
+Lemma sdp_closer_progress s t k c k0 :
   nth_error (ps_tasks s) t = Some k -> nth_error (ps_conns s) c = Some k0 ->
   (pt_stage k = PsCloseB c ->
-     exists s', p_step s (PCloseB t) = Some s' /\ exists k', nth_error (ps_conns s') c = Some k' /\ pc_open k' = false) /\
+     exists s', sdp_step s (PCloseB t) = Some s' /\ exists k', nth_error (ps_conns s') c = Some k' /\ pc_open k' = false) /\
   (pt_stage k = PsCloseA c -> pc_closed k0 = false ->
-     exists s', p_run s [PCloseA t; PCloseB t] = Some s' /\ exists k', nth_error (ps_conns s') c = Some k' /\ pc_open k' = false).
+     exists s', sdp_run s [PCloseA t; PCloseB t] = Some s' /\ exists k', nth_error (ps_conns s') c = Some k' /\ pc_open k' = false).
 Proof.
   intros Ek Ec. pose proof (nth_error_some_lt _ _ _ Ek) as Ht. pose proof (nth_error_some_lt _ _ _ Ec) as Hc. split.
   - intros Sk. cbn. rewrite Ek, Sk, Ec. eexists. split; [reflexivity|]. cbn.
     eexists. split; [apply nth_error_upd_eq; exact Hc|reflexivity].
-  - intros Sk Ck. cbn [p_run p_step]. rewrite Ek, Sk, Ec, Ck. cbn [pset_task pset_conn ps_tasks ps_conns].
+  - intros Sk Ck. cbn [sdp_run sdp_step]. rewrite Ek, Sk, Ec, Ck. cbn [pset_task pset_conn ps_tasks ps_conns].
     rewrite nth_error_upd_eq by exact Ht. cbn [pt_stage pwith_stage]. rewrite nth_error_upd_eq by exact Hc.
     eexists. split; [reflexivity|]. cbn. eexists. split; [apply nth_error_upd_eq; rewrite upd_length; exact Hc|reflexivity].
 Qed.
